@@ -8,6 +8,7 @@ from __future__ import annotations
 
 import collections
 import gc
+import os
 import itertools
 import typing as t
 import warnings
